@@ -15,10 +15,14 @@ import sys
 from concurrent.futures import ThreadPoolExecutor
 
 SKIP = {"hgraph/types/temporal.cpp", "hgraph/types/time_zone_provider.cpp", "hgraph/types/value/json_codec.cpp",
-        "hgraph/lib/std/operators/json_impl.cpp", "hgraph/lib/std/operators/conversion_impl.cpp",
+        "hgraph/lib/std/operators/json_impl.cpp",
         "hgraph/python/bridge_state.cpp", "hgraph/python/impl/ts_data_conversion.cpp"}
 WHEEL_INC = "/venv/lib/python3.12/site-packages/include"
 ARROW = "/venv/lib/python3.12/site-packages/pyarrow"
+SIMDJSON = "/root/miniconda/pkgs/simdjson-3.10.1-hdb19cb5_0"   # only validate_utf8 is used (conversion_impl.cpp)
+if not os.path.exists(os.path.join(SIMDJSON, "include/simdjson.h")):
+    SKIP.add("hgraph/lib/std/operators/conversion_impl.cpp")
+    SIMDJSON = None
 
 
 def sources(repo):
@@ -35,7 +39,8 @@ def flags(repo, gen):
     return ["-std=c++23", "-O0", "-g0", "-w", "-DFMT_HEADER_ONLY", "-DHGRAPH_STATIC_DEFINE",
             "-DHGRAPH_TIME_ZONE_BACKEND_STD=1", "-I" + gen, "-I" + os.path.join(repo, "include"),
             "-I" + os.path.join(repo, "include/third_party"), "-I" + os.path.join(repo, "src"),
-            "-I" + WHEEL_INC, "-I" + os.path.join(ARROW, "include")]
+            "-I" + WHEEL_INC, "-I" + os.path.join(ARROW, "include")] + \
+        (["-I" + os.path.join(SIMDJSON, "include")] if SIMDJSON else [])
 
 
 def headers_hash(repo):
@@ -110,12 +115,15 @@ def main():
 def link_probe(repo, out, fl, probe, exe):
     lib = os.path.join(out, "libhgraph_rt.a")
     po = exe + ".o"
-    r = subprocess.run(["g++"] + fl + ["-c", probe, "-o", po], capture_output=True, text=True)
+    extra = os.environ.get("PROBE_FLAGS", "").split()
+    r = subprocess.run(["g++"] + fl + extra + ["-c", probe, "-o", po], capture_output=True, text=True)
     if r.returncode != 0:
         print(r.stderr[-6000:])
         return 2
     link = ["g++", po, lib, "-L" + ARROW, "-l:libarrow.so.2500", "-l:libarrow_compute.so.2500",
-            "-l:libarrow_acero.so.2500", "-Wl,-rpath," + ARROW, "-lpthread", "-o", exe]
+            "-l:libarrow_acero.so.2500", "-Wl,-rpath," + ARROW] + \
+           (["-L" + os.path.join(SIMDJSON, "lib"), "-l:libsimdjson.so.23", "-Wl,-rpath," + os.path.join(SIMDJSON, "lib")]
+            if SIMDJSON else []) + ["-lpthread", "-o", exe]
     r = subprocess.run(link + ["-Wl,--no-demangle"], capture_output=True, text=True)
     if r.returncode != 0:
         syms = sorted(set(re.findall(r"undefined reference to `([^']+)'", r.stderr)))
@@ -126,6 +134,10 @@ def link_probe(repo, out, fl, probe, exe):
         with open(stub, "w") as fh:
             fh.write("#include <stdio.h>\n#include <stdlib.h>\n")
             for i, s in enumerate(syms):
+                if re.match(r"_ZN6hgraph6stdlib\d+register_[a-z_]*operatorsEv$", s):
+                    # operator groups of translation units that do not compile here: registering nothing
+                    fh.write('void stub_%d(void) __asm__("%s");\nvoid stub_%d(void){}\n' % (i, s, i))
+                    continue
                 fh.write('void stub_%d(void) __asm__("%s");\nvoid stub_%d(void){fprintf(stderr,"called stub %s\\n");abort();}\n'
                          % (i, s, i, s))
         subprocess.check_call(["gcc", "-c", stub, "-o", stub + ".o"])
